@@ -3,6 +3,7 @@ import io
 import json
 import math
 import os
+import shutil
 import subprocess
 import sys
 import tempfile
@@ -105,6 +106,11 @@ def run(tier, seed):
         pad = rng.random() < 0.5
         reqs.append('render %d %d %s' % (k, int(pad), tb(b)))
         meta.append((k, pad, b))
+    # dumps longer than 64 KiB: the four-digit address column of the BMC format has wrapped around by then
+    for k, pad in ((1, True), (1, False), (2, True)) if thorough else ((1, rng.random() < 0.5),):
+        b = bytes(65536 + rng.randrange(1, 700)) if rng.random() < 0.3 else gen_bytes(rng, 65536 + rng.randrange(1, 700))
+        reqs.append('render %d %d %s' % (k, int(pad), tb(b)))
+        meta.append((k, pad, b))
     rendered = lean_batch(reqs)
     noise_pool = ['', '# comment', 'ILOG dump follows', '\n', '   ', 'xyz', '-----', 'Zeta 00', ': 0000', '\t00']
     reqs2, meta2 = [], []
@@ -169,6 +175,43 @@ def run(tier, seed):
         if m != real:
             ck.disagree('parse output differs from model', rp | {'model': m.hex() if m is not None else r.raw[:60],
                                                                 'impl': real.hex() if real is not None else err})
+
+    # ---- 2b. the same renderings as FILES: the bytes that io_drawer.dump.parse_dump_file recovers from a dump file in either I/O-drawer
+    # format (comment / blank lines anywhere, also on top; short last line) and hands to the decoder are the original bytes
+    try:
+        from io_drawer import dump as iodump
+        seam = getattr(iodump, 'parse_dump_data', None)
+        cands = [(k, pad, b, text) for (k, pad, b, text) in meta2 if b and k in (1, 2) and k - 1 < len(getattr(iodump, 'HEX_DUMP_LINE_FORMATS', []))]
+        rng.shuffle(cands)
+        cands.sort(key=lambda c: len(c[2]) <= 65536)      # the dumps longer than 64 KiB first
+        tmpd = tempfile.mkdtemp(prefix='c13files_')
+        try:
+            for k, pad, b, text in cands[:600 if thorough else 150]:
+                if seam is None:
+                    ck.skip('io_drawer.dump.parse_dump_data not there: the bytes recovered from a file cannot be observed')
+                    break
+                got = []
+                iodump.parse_dump_data = lambda data, *a, **kw: (got.append(bytes(data)), [])[1]
+                path = os.path.join(tmpd, 'dump.txt')
+                with open(path, 'w', newline='') as f:
+                    f.write(''.join(t if t.endswith('\n') else t + '\n' for t in text))
+                try:
+                    with common.deadline(common.call_limit()):
+                        iodump.parse_dump_file(path, os.path.join(tmpd, 'no_header.H'), os.path.join(tmpd, 'no_strings'))
+                    err = None
+                except Exception as e:  # noqa
+                    err = type(e).__name__
+                finally:
+                    iodump.parse_dump_data = seam
+                ck.case(key=('file', k, pad, hash(tuple(text))), sample=None)
+                ck.count('dump file fmt=%d first line is %s' % (k, 'data' if text and text[0].strip() and text[0][:1] in '0123456789abcdefABCDEF' else 'noise'))
+                rp = {'op': 'parse_dump_file', 'format': k, 'lines': text, 'expected_hex': b.hex()}
+                if err is not None or got != [b]:
+                    ck.fail('decoding a dump FILE does not start from the original bytes', rp | {'actual': err or [g.hex() for g in got]}, 'parse_file_%d' % k)
+        finally:
+            shutil.rmtree(tmpd, ignore_errors=True)
+    except ImportError as e:
+        ck.skip('io_drawer.dump unavailable: %r' % e)
 
     # ---- 3. peltool -x display (in-process + CLI)
     try:
